@@ -51,11 +51,23 @@ structure Limits where
   hasSafe : Bool := false
   catchDepth : Nat := 0
   noCodeCallbacks : Nat := 0   -- the program makes this many efun callbacks that execute no instruction
+  safeWeight : Nat := 0        -- safe applies the program can make (each may add one tick: eval_bounded)
+  traceValues : Nat := 0       -- values per frame the driver's own trace turns into text (ArgumentsInTrace / LocalVariablesInTrace)
+  rxMustExpire : Bool := false -- the evaluation makes a regexp match that needs more node visits than the whole budget pays for
   deriving Repr
 
-/-- ticks the master's error handler may use per invocation (it runs on a refreshed budget, once per catch frame
-    the error passes and once at the driver level) -/
-def handlerAllowance : Nat := 100
+/-- ticks one delivery of an error may use outside the program: the master's error handler or, without one, the driver's own
+    trace with its master::object_name applies.  The number of deliveries is measured (entries of mudlib_error_handler, the
+    `handlers` field of the obs line) and, for program evaluations, compared with the model's (`handlers <n>` line). -/
+def handlerAllowance : Nat := 250
+
+/-- ... and per traced value of every frame when the driver prints its own trace with arguments / local variables (no master
+    error_handler, or one that failed): master::object_name is applied for every object value -/
+def traceAllowance : Nat := 16
+
+/-- allowance for one delivery, given the deepest control stack index of the evaluation -/
+def deliveryAllowance (lim : Limits) (maxcsp : Int) : Int :=
+  (handlerAllowance : Int) + (traceAllowance : Int) * lim.traceValues * ((maxcsp + 2).toNat : Int)
 
 def kvOf (toks : List String) (key : String) : Option Int :=
   match toks.find? (fun t => t.startsWith (key ++ "=")) with
@@ -72,12 +84,15 @@ structure Obs where
   maxtouch : Int := -1     -- highest value-stack slot at or above StackSize that was written (-1: none)
   cost0 : Int := 0         -- eval_cost when the evaluation started (0: not reported)
   completed : Bool := false  -- the evaluation returned to the driver normally (`r ret`)
+  handlers : Int := 0        -- error deliveries: entries of mudlib_error_handler during the evaluation
   deriving Repr
 
 /-- judge the numbers of one evaluation (the clause-level core of the oracle: `model_satisfies_spec` is about this
     function applied to the numbers of a model run, the line judge applies it to the parsed `obs` line) -/
 def judgeNums (lim : Limits) (o : Obs) : List String :=
-  (if o.ticks > (if lim.cost > 0 then lim.cost else 0) + (handlerAllowance : Int) * (lim.catchDepth + 2) then
+  -- (the budget the evaluation started with, when the harness reports it: set_eval_limit may change the configured one meanwhile)
+  (if o.ticks > (if o.cost0 > 0 then o.cost0 else if lim.cost > 0 then lim.cost else 0) + (lim.safeWeight : Int) +
+      deliveryAllowance lim o.maxcsp * o.handlers then
       (if lim.cost ≤ 0 then [s!"eval-exceeded nonpositive-budget ticks={o.ticks} budget={lim.cost}"]
        else if lim.hasSafe then [s!"eval-exceeded through-safe-apply ticks={o.ticks} budget={lim.cost}"]
        else [s!"eval-exceeded ticks={o.ticks} budget={lim.cost}"])
@@ -100,7 +115,9 @@ def judgeNums (lim : Limits) (o : Obs) : List String :=
 def judgeObs (lim : Limits) (completed : Bool) (toks : List String) : List String :=
   let get (k : String) : Int := (kvOf toks k).getD 0
   judgeNums lim { ticks := get "ticks", maxcsp := get "maxcsp", maxsp := get "maxsp", csp := get "csp", sp := get "sp",
-                  maxtouch := (kvOf toks "maxtouch").getD (-1), cost0 := get "cost0", completed := completed }
+                  maxtouch := (kvOf toks "maxtouch").getD (-1), cost0 := get "cost0", completed := completed,
+                  -- (an obs line without the field - a harness before this round - gets the old structural allowance)
+                  handlers := (kvOf toks "handlers").getD ((lim.catchDepth : Int) + 2) }
 
 /-- the constructors the harness can be asked for (`sz <name> <args>`, harness/mudlib/c04/sizes.c) -/
 inductive Ctor
@@ -198,9 +215,11 @@ def judgeMapSeq (lim : Limits) (v : String) : List String :=
 
 /-- an evaluation that returned normally although its program makes more code-less callbacks than the budget -/
 def judgeCallbacks (lim : Limits) : List String :=
-  if lim.cost > 0 ∧ (lim.noCodeCallbacks : Int) > lim.cost + handlerAllowance then
+  (if lim.cost > 0 ∧ (lim.noCodeCallbacks : Int) > lim.cost + handlerAllowance then
     [s!"eval-exceeded uncharged-callbacks callbacks={lim.noCodeCallbacks} budget={lim.cost}"]
-  else []
+  else []) ++
+  -- ... or although one of its regexp matches alone needs more node visits than the budget pays for
+  (if lim.rxMustExpire then [s!"eval-exceeded uncharged-regexp budget={lim.cost}"] else [])
 
 structure JState where
   lim : Limits := {}
@@ -221,7 +240,7 @@ def judgeLine (s : JState) (line : String) : JState :=
   | ["r", "ret", v] =>
     let s1 : JState := { s with pendingEv := s.pendingEv - 1, lastRet := true }
     s1.flag (judgeMapSeq s.lim v ++ judgeCallbacks s.lim)
-  | "r" :: "ret" :: _ => { s with pendingEv := s.pendingEv - 1, lastRet := true }
+  | "r" :: "ret" :: _ => ({ s with pendingEv := s.pendingEv - 1, lastRet := true } : JState).flag (judgeCallbacks s.lim)
   | "r" :: "err" :: _ => { s with pendingEv := s.pendingEv - 1, lastRet := false }
   | "obs" :: rest => { s with lastRet := false }.flag (judgeObs s.lim s.lastRet rest)
   | ["sz", "err"] => { s with pendingSz := s.pendingSz.drop 1 }
@@ -232,6 +251,7 @@ def judgeLine (s : JState) (line : String) : JState :=
       let l := limitOf s.lim ctor
       if n > l then s.flag [s!"size-exceeded ctor={ctor} size={n} limit={l}"] else s
     | _, _ => s.flag [s!"malformed {line}"]
+  | ["handlers", _] => s        -- compared with the model (correspondence), judged through the obs line
   | "mismatch" :: rest => s.flag [s!"map-count-mismatch {" ".intercalate rest}"]
   | "crash" :: _ => s.flag [s!"crash {line}"]
   | "sanitizer" :: _ => s.flag [s!"sanitizer {line}"]
